@@ -524,6 +524,7 @@ func __is(err error, target error) bool { return true }
 func __ri(n int) int                    { return 0 }
 func __rm[T any](n int) T { var z T; return z }
 func __recvs() int { return 0 }
+func __wgerr() error { return nil }
 func __recvval[T any](i int) T { var z T; return z }
 func __eq[T any](a, b T) bool           { return true }
 func __alloc[T any](x T) bool           { return true }
@@ -602,6 +603,7 @@ func __is(err error, target error) bool { return __errors.Is(err, target) }
 func __ri(n int) int                    { return 0 }
 func __rm[T any](n int) T { var z T; return z }
 func __recvs() int { return 0 }
+func __wgerr() error { return nil }
 func __recvval[T any](i int) T { var z T; return z }
 func __seen[K comparable](k K) bool     { return true }
 func __eq[T any](a, b T) bool           { return __reflect.DeepEqual(a, b) }
